@@ -32,7 +32,16 @@ impl Axecutor {
         let dest_reg: SupportedRegister = dest.into();
 
         let src_value = match src {
-            Operand::Memory(m) => self.internal_mem_read_128(self.mem_addr(m))?,
+            Operand::Memory(m) => {
+                let addr = self.mem_addr(m);
+                if addr & 0xf != 0 {
+                    // Unlike MOVUPS, XORPS requires its memory operand to be 16-byte aligned (#GP otherwise)
+                    return Err(AxError::from(format!(
+                        "XORPS memory operand at {addr:#x} is not aligned to 16 bytes"
+                    )));
+                }
+                self.internal_mem_read_128(addr)?
+            }
             Operand::Register(r) => self.internal_reg_read_128(r)?,
             _ => fatal_error!("Invalid operand for Movups_xmm_xmmm128"),
         };
